@@ -269,6 +269,8 @@ class Interp:
             hi[ax] = slice(1, None)
             lo[ax] = slice(None, -1)
             return a[tuple(hi)] - a[tuple(lo)]
+        if name == "einsum" and args and isinstance(args[0], str):
+            return np.einsum(args[0], *[np.asarray(arr(a_), dtype=object) for a_ in args[1:]])
         if name == "cross":
             return _cross(*args)
         if name == "dot":
@@ -540,6 +542,10 @@ class Frame:
             if isinstance(e.op, ast.Not):
                 b = self.truth(v, e.operand)
                 return not b
+            if isinstance(e.op, ast.Invert) and isinstance(v, np.ndarray) and v.dtype == bool:
+                return ~v
+            if isinstance(e.op, ast.Invert) and isinstance(v, bool):
+                return not v
             raise Unsupported(f"unary {ast.unparse(e)}")
         if isinstance(e, ast.BinOp):
             a, b = self.ev(e.left), self.ev(e.right)
@@ -758,7 +764,7 @@ class Frame:
             if name == "size":
                 return v.size
             if name in ("sum", "dot", "reshape", "copy", "prod", "mean", "transpose", "astype", "flatten", "ravel", "tolist",
-                        "max", "min", "ptp", "argmax", "argmin"):
+                        "max", "min", "ptp", "argmax", "argmin", "squeeze"):
                 return ("method", v, name)
             raise Unsupported(f"array attribute .{name}")
         if isinstance(v, Namespace):
@@ -838,6 +844,8 @@ class Frame:
                 return recv.copy()
             if name in ("flatten", "ravel"):
                 return recv.reshape(-1).copy()
+            if name == "squeeze":
+                return recv.squeeze()
             if name == "transpose":
                 return recv.T
             if name == "tolist":
